@@ -1,23 +1,58 @@
 #!/bin/bash
 # Runs the repository's pinned test suite (guard OFF: no build tag) and compares with BASELINE.json stable_pass.
-# usage: tools/baseline.sh [repo-dir]   -> exit 0 iff every stable_pass test passes
+# usage: tools/baseline.sh [repo-dir] [--affected-by <patch.diff>]
+#   -> exit 0 iff every stable_pass test (of the packages run) passes.
+# With --affected-by only the packages whose (test) dependency closure contains a package touched by the
+# patch are run: the build inputs of every other package's tests are byte-identical, so their results cannot change.
 REPO=${1:-/repo}
+PATCH=""
+if [ "${2:-}" = "--affected-by" ]; then PATCH=$3; fi
 export GOTOOLCHAIN=local  # GOFLAGS/GOPROXY are deliberately NOT exported: cl.TestErrImportPkg pins go-command error text that changes under them
 unset GOWORK
 OUT=$(mktemp /tmp/baseline.XXXXXX.json)
-(cd "$REPO" && go test -mod=mod -json -vet=off -count=1 -timeout 25m ./... > "$OUT" 2>/dev/null)
-python3 - "$OUT" <<'PY'
+PKGS="./..."
+if [ -n "$PATCH" ]; then
+  PKGS=$(cd "$REPO" && python3 - "$PATCH" <<'PY'
+import subprocess,sys,re,os
+touched=set()
+for l in open(sys.argv[1]):
+    m=re.match(r'^\+\+\+ b/(.*)$',l) or re.match(r'^--- a/(.*)$',l)
+    if m and m.group(1).endswith('.go'):
+        d=os.path.dirname(m.group(1))
+        touched.add('github.com/goplus/xgo'+('/'+d if d else ''))
+out=subprocess.run(['go','list','-mod=mod','-test','-f','{{.ImportPath}}|{{join .Deps " "}}','./...'],capture_output=True,text=True).stdout
+sel=set()
+for l in out.splitlines():
+    if '|' not in l: continue
+    ip,deps=l.split('|',1)
+    base=ip.split(' ')[0]
+    if base.endswith('.test'): base=base[:-5]
+    base=re.sub(r'_test$','',base)
+    ds=set(d.split(' ')[0] for d in deps.split(' ') if d)
+    ds.add(base)
+    if ds & touched: sel.add(base)
+print(' '.join(sorted(sel)))
+PY
+)
+  [ -z "$PKGS" ] && { echo "no affected packages"; rm -f $OUT; exit 0; }
+  echo "affected packages: $(echo $PKGS | wc -w)"
+fi
+(cd "$REPO" && go test -mod=mod -json -vet=off -count=1 -timeout 25m $PKGS > "$OUT" 2>/dev/null)
+python3 - "$OUT" "$PATCH" <<'PY'
 import json,sys
 base=json.load(open('/root/.vp/BASELINE.json'))
 want=set(base['stable_pass'])
-res={}
+res={}; pkgs=set()
 for l in open(sys.argv[1]):
     try: e=json.loads(l)
     except: continue
+    if e.get('Package'): pkgs.add(e['Package'])
     if e.get('Action') in ('pass','fail','skip') and e.get('Test'):
         res[e['Package']+'::'+e['Test']]=e['Action']
+if sys.argv[2]:
+    want=set(t for t in want if t.split('::')[0] in pkgs)
 missing=[t for t in sorted(want) if res.get(t)!='pass']
-print('stable_pass=%d passed_now=%d not_passing=%d'%(len(want),sum(1 for t in want if res.get(t)=='pass'),len(missing)))
+print('stable_pass(considered)=%d passed_now=%d not_passing=%d packages_run=%d'%(len(want),sum(1 for t in want if res.get(t)=='pass'),len(missing),len(pkgs)))
 for t in missing[:40]: print('  NOT PASSING:',t,res.get(t))
 sys.exit(1 if missing else 0)
 PY
